@@ -64,7 +64,7 @@ Qed.
 
 Inductive non_runtime_change (s : step_in) : Prop :=
 | nr_first : si_committed s = false -> non_runtime_change s           (* nothing loaded yet / full sync *)
-| nr_other : si_other_changed s = true -> non_runtime_change s        (* global, tcp services, frontend, userlists *)
+| nr_other : si_other_changed s = true -> non_runtime_change s        (* global, tcp services, frontend, userlists, default backend *)
 | nr_host_removed : si_host_removed s = true -> non_runtime_change s
 | nr_back_removed : si_back_removed s = true -> non_runtime_change s
 | nr_back_added : forall p, In p (si_backs s) -> bp_old p = None -> non_runtime_change s
